@@ -2,10 +2,12 @@ package harness
 
 import (
 	txfile "github.com/elastic/go-txfile"
+
+	"verifsim/simdisk"
 )
 
 func init() {
-	probeNames["C11"] = []string{"conservation_checked", "probe_zero", "commit_ok", "tx_aborted", "commit_failed", "out_of_memory", "reopen", "meta_grew", "file_full_cycle", "prealloc"}
+	probeNames["C11"] = []string{"conservation_checked", "probe_zero", "commit_ok", "tx_aborted", "commit_failed", "out_of_memory", "reopen", "meta_grew", "file_full_cycle", "prealloc", "continued_after_crash_recovery"}
 	register(&PropDef{
 		ID: "C11", Level: "exploration", QuickSec: 50, ThoroSec: 900,
 		Rule: "each run = one long seeded alloc/free history (20-150 transactions quick, up to 600 thorough; fill-to-out-of-space and free cycles, rollbacks, failed commits, overwrites, reopen) on a size-bounded configuration (max size, page size, init meta area, prealloc) on which no transaction enables the overflow area. At every quiescent point: capacity probe (allocate one page at a time until OutOfMemory, roll back) + live pages (model) + meta area + 2 header pages == max pages; the allocator snapshot covers [2,end) without gaps (no leaked page) and meta accounting adds up; the simulated file never exceeded max size; FileStats (DataAllocated, MetaArea, MetaAllocated) equal model/snapshot, also right after reopen. Non-trivial = run that reached out-of-space at least once and continued; distinct = op list + config + schedule hash.",
@@ -77,6 +79,9 @@ func c11Body(e *Env) {
 			}
 			c.Cfg.Mix = []string{"alloc", "fragment", "big", "balanced", "rollback", "overwrite"}[rng.Intn(6)]
 			c.Cfg.NoYieldIO = rng.Intn(3) > 0
+			if rng.Intn(3) == 0 {
+				c.Cfg.Variant = 1 // continue on a crash-recovered image
+			}
 			r.Cfg = *c.Cfg
 			r.D.YieldIO = !c.Cfg.NoYieldIO
 			*g = *NewGen(r, e.Rng("ops"), c.Cfg.Mix)
@@ -94,6 +99,53 @@ func c11Body(e *Env) {
 	})
 	if c.Cfg.Prealloc {
 		e.Probe("prealloc")
+	}
+	// optional second phase on a crash-recovered image: the conservation
+	// invariant must keep holding after recovery (no page leaked by the crash)
+	if !e.Failed() && r.F != nil && c.Cfg.Variant == 1 && !r.InTx() {
+		b := simdisk.NewImageBuilder(r.D.Log, nil)
+		b.Advance(len(r.D.Log))
+		pend := b.PendingOps()
+		keep := make([]bool, len(pend))
+		crng := e.Rng("c11crash")
+		for i := range keep {
+			keep[i] = crng.Intn(2) == 0
+		}
+		img := b.Image(keep, -1, 0)
+		cur := r.Cur()
+		r.Close()
+		d2 := e.NewDiskFromImage("recovered", img)
+		d2.YieldIO = r.D.YieldIO
+		r2 := NewRunner(e, d2, r.Cfg)
+		r2.Hist = []*State{cur.clone()}
+		r2.CheckCover = true
+		if err := r2.Open(); err != nil {
+			e.Fail("C01", "open-failed", "opening the image after a crash at a quiescent point failed: %v", err)
+			return
+		}
+		e.Probe("continued_after_crash_recovery")
+		r2.OnQuiescent = func(when string) {
+			if r2.txOOMSeen {
+				everOOM = true
+			}
+			c11Check(e, r2, "after crash recovery, "+when, probeRng.Intn(3) == 0)
+		}
+		c11Check(e, r2, "right after crash recovery", true)
+		g2 := NewGen(r2, e.Rng("ops2"), c.Cfg.Mix)
+		g2.NoOverflow = true
+		var explicit2 []Op
+		if c.Explicit {
+			explicit2 = c.Tasks["after"]
+			if explicit2 == nil {
+				explicit2 = []Op{}
+			}
+		}
+		runHistory(e, r2, g2, explicit2, c.Cfg.NTx/2+1, "C11", nil)
+		if r2.InTx() && !e.Failed() {
+			r2.Apply(Op{K: "rollback"})
+		}
+		c.Tasks["after"] = r2.Ops
+		r = r2
 	}
 	if !e.Failed() && r.F != nil {
 		c11Check(e, r, "end of history", true)
